@@ -60,6 +60,11 @@ CLAIMED = {
   ref="DESIGN.md §6 C03",
   note="Partial: BC6H is not modelled and the F32 output precision is not modelled (U8 and U16 are). The BC7 partition tables of the specification were transcribed from the pinned commit (no independent copy offline) - their structure is proved and any later change of the source tables breaks tables_tie and the correspondence. Trusted: Coq kernel, extraction, the harness, the specification files spec/SpecBC.v and spec/SpecBC7Tables.v.",
   tech="Coq proof (finite sweeps lifted by lemma for the integer finalisers, div/mod bit-field lemmas and induction over pixels for the BC7 index stream) + differential execution"),
+ "C04": dict(
+  text="Coq theorems over the whole input domain of each conversion: UNORM fields of 1..16 bits to 8/16-bit outputs are v/(2^n-1) rounded to nearest; SNORM bytes/words treat both minimum codes as -1 and round to nearest; XR bias is (x-0x180)/510 clamped and rounded; every F32 output of a UNORM/SNORM/XR field is the correctly rounded quotient (nearest binary32) for all codes incl. all 65536 16-bit ones; half, 11-bit, 10-bit and shared-exponent floats are exact at F32 and clamp01(value)*max rounded to nearest at 8/16 bits. Bit fields, channel order, defaults and chroma pairing of all 45 formats are stated in model/Uncomp.v and compared with dds::decode bit for bit at U8/U16/F32; the float arithmetic is an executable IEEE model compared with the hardware operations.",
+  ref="DESIGN.md §6 C04",
+  note="Partial: f32 inputs (R32*_FLOAT to U8/U16) and the BT.601 YUV matrices are modelled and compared on boundary and random inputs but have no rounding theorem; the IEEE model is validated by differential execution, not derived from Flocq. Found and repaired F10 (XR bias F32 one ULP off) and F12 (R9G9B9E5 to U16 off by one); F11 (half codes 0x3801-0x3804 to U16 off by one) is a known finding with a refutation lemma.",
+  tech="Coq proof (exhaustive finite sweeps by vm_compute lifted by lemma, executable IEEE-754 model) + differential execution + exact-arithmetic oracle"),
  "C19": dict(
   text="Coq theorems over the implementation's regenerated tables: for every header from which a format is detected (all valid DXGI codes x alpha modes incl. the premultiplied special cases, every FourCC, every mask pixel format; all other fields symbolic) the pixel layout derived from the header equals the pixel layout of the detected format, so layouts computed with or without a decoder coincide; every implemented format's pixel layout is within the bounds the layout/script theorems assume; size multiples are advertised exactly for the bi-planar formats and equal their sub-sampling; advertised bits per pixel are exact for fixed-size pixels and an upper bound per whole block otherwise. Observed behaviour is tied to the tables by differential execution: header detection sweep here, bytes consumed by decoding in C06, sizes accepted by encoding in C10. The dithering clauses are checked by an implementation-only oracle over all encodable formats.",
   ref="DESIGN.md §6 C19",
